@@ -341,6 +341,9 @@ enum Msg {
     OpenOther(String),
     /// tokens of this history's own document, after the other one was opened
     TokensOwn,
+    /// written back to back without waiting for any answer: a change of this document, a change of
+    /// the other document, a token request for this document (texts: own, other)
+    Pipelined(String, String),
 }
 
 /// Runs one history on a (possibly fresh) server; returns problems and message count.
@@ -373,6 +376,43 @@ fn run_history(lsp: &mut Option<Lsp>, bin: &str, uri: &str, hist: &[Msg], flavor
                 match l.wait(|x| x["id"] == json!(id), 8000) {
                     Some(r) => Ok(check_tokens(&own, &r, ll).map(|(s, d)| (format!("after another document was opened: {}", s), d))),
                     None => Err("no response to semanticTokens/full".into()),
+                }
+            }
+            Msg::Pipelined(mine, theirs) => {
+                latest = mine.clone();
+                own = mine.clone();
+                let other = uri.to_uppercase().replace("FILE:", "file:");
+                l.notify("textDocument/didChange", json!({"textDocument":{"uri":uri,"version":3},"contentChanges":[{"text":mine}]}))?;
+                l.notify("textDocument/didChange", json!({"textDocument":{"uri":other,"version":3},"contentChanges":[{"text":theirs}]}))?;
+                let id = l.request("textDocument/semanticTokens/full", json!({"textDocument":{"uri":uri}}))?;
+                // everything up to the token response (the server answers in order)
+                let mut got: Vec<J> = vec![];
+                let deadline = std::time::Instant::now() + Duration::from_millis(8000);
+                let mut tokens: Option<J> = None;
+                while tokens.is_none() {
+                    let left = deadline.saturating_duration_since(std::time::Instant::now());
+                    match l.rx.recv_timeout(left) {
+                        Ok(m) => {
+                            if m["id"] == json!(id) {
+                                tokens = Some(m);
+                            } else {
+                                got.push(m);
+                            }
+                        }
+                        Err(_) => break,
+                    }
+                }
+                let Some(tokens) = tokens else { return Err("no response to semanticTokens/full after two pipelined changes".into()) };
+                let ll = l.legend_len;
+                let mine_diag = got.iter().rev().find(|x| x["method"] == "textDocument/publishDiagnostics" && x["params"]["uri"] == *uri);
+                let their_diag = got.iter().rev().find(|x| x["method"] == "textDocument/publishDiagnostics" && x["params"]["uri"] == other);
+                if l.utf8_positions && !(mine.is_ascii() && theirs.is_ascii()) {
+                    return Ok(None);
+                }
+                match (mine_diag, their_diag) {
+                    (None, _) => Ok(Some(("a change followed at once by a change of another document is never answered".to_string(), format!("didChange({:?}) for {} got no publishDiagnostics before the token response; received {:?}", mine, uri, got.iter().map(|x| x["method"].clone()).collect::<Vec<_>>())))),
+                    (_, None) => Ok(Some(("a change written right behind another one is never answered".to_string(), format!("didChange({:?}) for {} got no publishDiagnostics", theirs, other)))),
+                    (Some(a), Some(b)) => Ok(check_diagnostics(mine, a).or_else(|| check_diagnostics(theirs, b)).or_else(|| check_tokens(mine, &tokens, ll)).map(|(s, d)| (format!("after pipelined changes: {}", s), d))),
                 }
             }
             Msg::Open(t) if l.utf8_positions && !t.is_ascii() => {
@@ -478,6 +518,12 @@ pub fn run(thorough: bool) -> Report {
             hists.push(vec![Msg::Open(a.clone()), Msg::Tokens, Msg::OpenOther(b.clone()), Msg::TokensOwn]);
         }
     }
+    // a client that does not wait for answers: changes of two documents and a token request in one go
+    for a in core.iter().step_by(4) {
+        for b in core.iter().skip(2).step_by(5) {
+            hists.push(vec![Msg::Open(a.clone()), Msg::OpenOther(b.clone()), Msg::Pipelined(format!("{}\n{}", b, a), a.clone()), Msg::Tokens]);
+        }
+    }
     // one change notification with two or three full texts
     {
         let c8: Vec<&String> = core.iter().step_by(4).take(8).collect();
@@ -546,7 +592,7 @@ pub fn run(thorough: bool) -> Report {
         for (sig, detail, hi) in v {
             let e = by_sig.entry(sig).or_insert((0, hi, detail.clone()));
             e.0 += 1;
-            let size = |i: usize| hists[i].iter().map(|m| match m { Msg::Open(t) | Msg::Change(t) | Msg::OpenOther(t) => t.len(), Msg::ChangeMulti(ts) => ts.iter().map(|t| t.len()).sum(), _ => 0 }).sum::<usize>();
+            let size = |i: usize| hists[i].iter().map(|m| match m { Msg::Open(t) | Msg::Change(t) | Msg::OpenOther(t) => t.len(), Msg::Pipelined(a, b) => a.len() + b.len(), Msg::ChangeMulti(ts) => ts.iter().map(|t| t.len()).sum(), _ => 0 }).sum::<usize>();
             if size(hi) < size(e.1) {
                 e.1 = hi;
                 e.2 = detail;
@@ -568,6 +614,7 @@ pub fn run(thorough: bool) -> Report {
                 Msg::Tokens => json!("semanticTokens/full"),
                 Msg::OpenOther(t) => json!({"didOpen (same URI in upper case)": t}),
                 Msg::TokensOwn => json!("semanticTokens/full (first document)"),
+                Msg::Pipelined(a, b) => json!({"written without waiting: didChange (this document), didChange (the other document), semanticTokens/full (this document)": [a, b]}),
             })
             .collect();
         rep.violations.push(Violation { signature: sig, detail: format!("{} (smallest of {} failing histories)", detail, cnt), case: json!({"kind":"lsp","history":h}) });
